@@ -217,17 +217,28 @@ func retClass(ret []byte) int {
 	return 3
 }
 
+// "from-to-index" back to service numbers; service names may themselves contain '-', so the known full ids are
+// matched as prefixes instead of splitting
 func (w *world) parseID(id string) []interface{} {
-	parts := strings.Split(id, "-")
-	if len(parts) != 3 {
-		return []interface{}{3}
+	for k1 := range w.svcs {
+		f := w.svcs[k1].fullID + "-"
+		if !strings.HasPrefix(id, f) {
+			continue
+		}
+		rest := id[len(f):]
+		for k2 := range w.svcs {
+			t := w.svcs[k2].fullID + "-"
+			if !strings.HasPrefix(rest, t) {
+				continue
+			}
+			idx := rest[len(t):]
+			if idx == "" || strings.Trim(idx, "0123456789") != "" {
+				continue
+			}
+			return []interface{}{1, k1 + 1, k2 + 1, idx}
+		}
 	}
-	f, ok1 := w.byFull[parts[0]]
-	t, ok2 := w.byFull[parts[1]]
-	if !ok1 || !ok2 {
-		return []interface{}{3}
-	}
-	return []interface{}{1, f, t, parts[2]}
+	return []interface{}{3}
 }
 
 func (w *world) token(s string) []interface{} {
@@ -291,7 +302,7 @@ func runHistory(line []byte) (interface{}, error) {
 	}
 	for k, raw := range h.Svcs {
 		var a []json.RawMessage
-		if err := json.Unmarshal(raw, &a); err != nil || len(a) != 6 {
+		if err := json.Unmarshal(raw, &a); err != nil || (len(a) != 6 && len(a) != 7) {
 			return fail("bad service entry")
 		}
 		var v [5]int
@@ -303,6 +314,13 @@ func runHistory(line []byte) (interface{}, error) {
 		s := svc{hub: v[0], chain: v[1], ordered: v[2] != 0, avail: v[3] != 0, reg: v[4] != 0, bl: bl}
 		s.chainName = chainName(s.chain)
 		s.name = fmt.Sprintf("svc%d", k+1)
+		if len(a) == 7 {
+			// optional service name (e.g. one containing the id separator '-', like a Fabric "channel-1&cc" id)
+			var nm string
+			if json.Unmarshal(a[6], &nm) == nil && nm != "" {
+				s.name = nm
+			}
+		}
 		s.fullID = fmt.Sprintf("%d:%s:%s", localHub+s.hub, s.chainName, s.name)
 		w.svcs = append(w.svcs, s)
 		w.byFull[s.fullID] = k + 1
@@ -620,6 +638,21 @@ func runHistory(line []byte) (interface{}, error) {
 			pair := []int64{-1, -1}
 			for j, isReq := range []bool{true, false} {
 				ok, ret := c.View(ic, "GetIBTPByID", pb.String(id), pb.Bool(isReq))
+				if !ok && strings.Count(id, "-") != 2 {
+					// GetIBTPByID refuses ids that do not split into exactly three parts (a service name containing
+					// '-'): read the index record from the contract's storage instead
+					key := contracts.IndexMapKey(id)
+					if !isReq {
+						key = contracts.IndexReceiptMapKey(id)
+					}
+					c.ViewLdg.Clear()
+					if found, val := c.ViewLdg.GetState(ic, []byte(key)); found {
+						var hh types.Hash
+						if json.Unmarshal(val, &hh) == nil {
+							ok, ret = true, hh.Bytes()
+						}
+					}
+				}
 				if ok {
 					if s, known := serial[types.NewHash(ret).String()]; known {
 						pair[j] = s
